@@ -9,6 +9,7 @@ META = {
             "pair is built as ingest.NewOverlayWorld over basic worlds, compact worlds and a mix; lookup, locations, tag "
             "search (order, no duplicates) and enumeration (each ID once, upper version) must equal the specification's.",
     "note": "Both layers are self-contained valid worlds (an upper path needs its points in the upper layer). "
+            "The basic pairs are also built in a frame where vertex 4 (an upper-layer location of P0) is exactly latitude 0, longitude 0. "
             "Small scope: 9 IDs. Collections are left out of compact layers (the compact format does not store them). "
             "Trusted: TLC, harness/obs, vh-world.",
     "technique": "TLA+ spec (StaticWorld) enumerated by TLC; every case built with the real worlds and observed",
@@ -18,7 +19,8 @@ META = {
 def run(ctx):
     return sworld.run_static(
         ctx, "C16", 2,
-        variants=[{"impl": "layered-basic"}, {"impl": "layered-compact", "cores": 2, "max": (20, 250)},
+        variants=[{"impl": "layered-basic"}, {"impl": "layered-basic", "frame": "origin", "max": (200, 1536)},
+                  {"impl": "layered-compact", "cores": 2, "max": (20, 250)},
                   {"impl": "layered-mixed", "max": (20, 250)}],
         sections=["lookup", "search", "each", "problems"],
         rule="every (base, upper) pair TLC enumerates for scenario 2, built three ways; distinct = (impl, base, upper)",
